@@ -1139,6 +1139,15 @@ pub fn plans_for(prop: &str, thorough: bool) -> Vec<Plan> {
                 oracles: O_SORT | O_CENSUS | O_PARSE,
                 u_cap: 400,
             });
+            plans.push(Plan {
+                name: "one large require group (21..64 members, 5 base orders) with one duplicated name at every pair of positions",
+                cases: gen::f_req_large(thorough),
+                cfgs: cross(false, |b| vec![Cfg { sort: true, ..b }]),
+                widths: Widths::Wide,
+                ranges: Ranges::None,
+                oracles: O_SORT | O_PARSE,
+                u_cap: 400,
+            });
         }
         _ => {}
     }
